@@ -128,6 +128,28 @@ func c12Const(e *Env) {
 			return true
 		})
 		r.Check(madeWith, rule, fname+":bounded-size-is-made", w.Pos(fi.Decl.Pos()), "the size that was bounded is the size of the chain", "the chain is not made with the variable tested against AbortIndex")
+		// every return hands out the freshly made chain (never an alias of a group's own slice:
+		// a later Use on either group would append into the shared backing array)
+		var made *types.Var
+		ast.Inspect(fi.Decl.Body, func(n ast.Node) bool {
+			if as, ok := n.(*ast.AssignStmt); ok && len(as.Lhs) == 1 && len(as.Rhs) == 1 {
+				if c, ok := unparen(as.Rhs[0]).(*ast.CallExpr); ok && isBuiltin(info, c, "make") {
+					made = usedVar(info, as.Lhs[0])
+				}
+			}
+			return true
+		})
+		nr := 0
+		ast.Inspect(fi.Decl.Body, func(n ast.Node) bool {
+			if _, isLit := n.(*ast.FuncLit); isLit {
+				return false
+			}
+			if rs, ok := n.(*ast.ReturnStmt); ok && len(rs.Results) == 1 {
+				nr++
+				r.Check(made != nil && usedVar(info, rs.Results[0]) == made, rule, fmt.Sprintf("%s:return#%d:fresh", fname, nr), w.Pos(rs.Pos()), "the chain builder returns the freshly allocated chain", "`"+nodeString(rs)+"` hands out an existing slice: the new group/route shares its backing array with another chain, and a later Use() on one of them overwrites the other's middleware")
+			}
+			return true
+		})
 	}
 	r.Floor(rule, nBuilders, 1, "chain builders in package route")
 }
